@@ -130,6 +130,8 @@ func VerifP_C03_DeterminismAtPos(i int) {
 			if q < len(c1.List) {
 				verifAssert(c0.List[q].Label == c1.List[q].Label, "C03:candidates-order-deterministic"+at)
 				verifAssert(c0.List[q].TextEdit.Snippet == c1.List[q].TextEdit.Snippet, "C03:candidate-snippet-deterministic"+at)
+				verifAssert(c0.List[q].Detail == c1.List[q].Detail, "C03:candidate-detail-deterministic"+at)
+				verifAssert(c0.List[q].Description.Value == c1.List[q].Description.Value, "C03:candidate-description-deterministic"+at)
 			}
 		}
 		verifAssert((he0 == nil) == (he1 == nil), "C03:hover-error-deterministic"+at)
@@ -169,8 +171,8 @@ func VerifH_C03_Determinism_MultiFile() {
 		Attributes: map[string]*schema.AttributeSchema{"use": {Constraint: schema.AnyExpression{OfType: cty.DynamicPseudoType}, IsOptional: true}},
 		Blocks: map[string]*schema.BlockSchema{
 			"module": {
-				Labels: []*schema.LabelSchema{{Name: "name"}},
-				Address: &schema.BlockAddrSchema{Steps: schema.Address{schema.StaticStep{Name: "module"}, schema.LabelStep{Index: 0}}, AsReference: true, ScopeId: lang.ScopeId("module")},
+				Labels:        []*schema.LabelSchema{{Name: "name"}},
+				Address:       &schema.BlockAddrSchema{Steps: schema.Address{schema.StaticStep{Name: "module"}, schema.LabelStep{Index: 0}}, AsReference: true, ScopeId: lang.ScopeId("module")},
 				Body:          &schema.BodySchema{Attributes: map[string]*schema.AttributeSchema{"source": {Constraint: str, IsOptional: true, IsDepKey: true}}},
 				DependentBody: map[schema.SchemaKey]*schema.BodySchema{k1: b1, k2: b2},
 			},
